@@ -1,12 +1,14 @@
 use std::{
-    io::{BufRead, ErrorKind, Result as IoResult},
+    io::{BufRead, Chain, Cursor, ErrorKind, Read, Result as IoResult},
     slice,
 };
 
 use super::encoding::Encoding;
 
 pub struct Decoder<R> {
-    inner: R,
+    // Bytes that had to be taken out of the reader to look for the BOM but
+    // are not part of it come first.
+    inner: Chain<Cursor<Vec<u8>>, R>,
     read_buf: Vec<u8>,
     // Only used for UTF-16/invalid UTF-8 encoded data
     decode_buf: String,
@@ -15,35 +17,55 @@ pub struct Decoder<R> {
 
 impl<R: BufRead> Decoder<R> {
     pub fn new(mut inner: R) -> IoResult<Self> {
+        let (encoding, prefix) = Self::read_bom(&mut inner)?;
+
         Ok(Self {
-            encoding: Self::read_bom(&mut inner)?,
+            encoding,
             read_buf: Vec::new(),
             decode_buf: String::new(),
-            inner,
+            inner: Cursor::new(prefix).chain(inner),
         })
     }
 
-    fn read_bom(reader: &mut R) -> IoResult<Encoding> {
-        let buf = loop {
+    /// Determines the encoding from the BOM and skips it.
+    ///
+    /// If the reader hands out fewer than three bytes at once, the bytes it
+    /// does hand out are collected until a BOM can be recognized; those that
+    /// are not part of the BOM are returned so that they can be read first.
+    fn read_bom(reader: &mut R) -> IoResult<(Encoding, Vec<u8>)> {
+        let mut prefix = Vec::new();
+
+        loop {
             let available = match reader.fill_buf() {
                 Ok(n) => n,
                 Err(ref err) if err.kind() == ErrorKind::Interrupted => continue,
                 Err(err) => return Err(err),
             };
 
-            let len = available.len();
+            if prefix.is_empty() && available.len() >= 3 {
+                let (encoding, consumed) = Encoding::from_bom(available);
+                reader.consume(consumed);
 
-            if len >= 3 || len == 0 {
-                break available;
+                return Ok((encoding, prefix));
             }
 
-            reader.consume(len);
-        };
+            if available.is_empty() {
+                break;
+            }
 
-        let (encoding, consumed) = Encoding::from_bom(buf);
-        reader.consume(consumed);
+            let take = available.len().min(3 - prefix.len());
+            prefix.extend_from_slice(&available[..take]);
+            reader.consume(take);
 
-        Ok(encoding)
+            if prefix.len() == 3 {
+                break;
+            }
+        }
+
+        let (encoding, consumed) = Encoding::from_bom(&prefix);
+        prefix.drain(..consumed);
+
+        Ok((encoding, prefix))
     }
 
     pub fn read_line(&mut self) -> IoResult<Option<&str>> {
